@@ -19,6 +19,7 @@ import Driver.RootChk
 import Driver.GroupChk
 import Driver.SemaChk
 import Driver.OnceChk
+import Driver.IoChChk
 import Driver.ApplyChk
 import Driver.SourceChk
 import Driver.SrcChk
@@ -300,6 +301,7 @@ def main (args : List String) : IO UInt32 := do
   | "group" :: paths => GroupChk.main paths
   | "sema" :: paths => SemaChk.main paths
   | "once" :: paths => OnceChk.main paths
+  | "iobar" :: paths => IoChChk.main paths
   | "apply" :: paths => ApplyChk.main paths
   | "source" :: paths => SourceChk.main paths
   | "srcview" :: paths => SrcChk.main paths
